@@ -399,6 +399,11 @@ impl Ctl {
     }
 }
 
+fn verbose() -> bool {
+    static V: std::sync::OnceLock<bool> = std::sync::OnceLock::new();
+    *V.get_or_init(|| std::env::var_os("VERIF_CHESS_VERBOSE").is_some())
+}
+
 /// The tap callback: turns events of registered threads into scheduling points.
 fn on_event(ev: &Event) {
     let Some(ctl) = active() else { return };
@@ -419,6 +424,9 @@ fn on_event(ev: &Event) {
         _ => {}
     }
     let Some(tid) = tid else { return };
+    if verbose() {
+        eprintln!("    T{tid} {ev:?}");
+    }
     let pending = match ev {
         Event::Lock { class, mode, addr, probe } => Pending::Lock {
             class,
